@@ -47,6 +47,8 @@ type IPFSLog struct {
 }
 
 func (l *IPFSLog) Len() int {
+	defer verifPoint("unlock.r", l)
+	verifPoint("lock.r", l)
 	l.lock.RLock()
 	defer l.lock.RUnlock()
 
